@@ -135,6 +135,7 @@ def check(pid, tier='quick', seed=0, shared=None, write_evidence=True, quiet=Fal
     known_hits = []
     functions = []
     trusted = set()
+    dep_verified = []
     unverified = set()
     solver_us_box = [0]
     counters = {}
@@ -158,6 +159,8 @@ def check(pid, tier='quick', seed=0, shared=None, write_evidence=True, quiet=Fal
             inconclusive.append(f'{wname}: assume/admit outside the shim')
             continue
         trusted.update(scan_trusted(unit_text))
+        for sd in meta.get('shim_discharged', []):
+            dep_verified.append(f"shim/{sd['shim'].replace(':', '.rs ', 1)} == contract verified on {sd['source']} ({sd['function']}, world {wname})")
         if any((meta.get('generated') or {}).values()):
             generated[wname] = meta['generated']
         for k, v in meta['counters'].items():
@@ -446,6 +449,7 @@ def check(pid, tier='quick', seed=0, shared=None, write_evidence=True, quiet=Fal
             'obligations': n_ob, 'discharged': n_dis,
             'checker_cmd': 'verus unit.rs --output-json --time-expanded --error-format=json --multiple-errors 40 (Verus 0.2026.09.13, Z3) on text re-extracted from /repo by vf.assemble',
             'trusted_base': sorted(trusted),
+            'dependency_contracts_verified': sorted(set(dep_verified)),
             'samples': [o['id'] for o in obligations][:60],
             'functions_under_contract': functions,
             'vacuity_twins_expected_failed': twins,
